@@ -1,24 +1,37 @@
-// zprobe: small one-off confirmations of defects against the real code (used when deciding fixes).
+// zprobe: small one-off confirmations of behaviours against the real code (used when deciding fixes).
 package main
 
 import (
 	"fmt"
-	"runtime/debug"
+	"os"
 
-	zap "github.com/blevesearch/zapx/v16"
+	"github.com/RoaringBitmap/roaring/v2"
+	segment "github.com/blevesearch/scorch_segment_api/v2"
 
 	"zverif/zh"
 )
 
 func main() {
-	debug.SetGCPercent(-1)
-	r := zh.NewRng(7)
-	b := zh.GenBatch(r, zh.RandOpts(r, 3, "p"))
+	b := zh.Batch{
+		{Fields: []zh.Field{zh.IDField("a"), {Name: "body", Len: 1, Toks: []zh.Tok{{Term: "x", Freq: 1}}}}},
+		{Fields: []zh.Field{zh.IDField("s"), {Name: "syn2", Typ: 's', Syn: []zh.SynDef{{Term: "b", Syns: []string{"big"}}}}}},
+	}
 	sb, _, err := zh.Build(b, 1026)
 	if err != nil {
 		panic(err)
 	}
-	fmt.Println("pool hands out one object twice before any visit:", zap.VerifPoolProbe())
-	sb.VisitStoredFields(0, func(string, byte, []byte, []uint64) bool { return false })
-	fmt.Println("pool hands out one object twice after an early-stopped visit:", zap.VerifPoolProbe())
+	dr := roaring.New()
+	dr.Add(1)
+	maps, _, path, err := zh.Merge([]segment.Segment{sb}, []*roaring.Bitmap{dr}, 1026)
+	fmt.Println("merge:", maps, err)
+	s, err := zh.Plugin.Open(path)
+	if err != nil {
+		panic(err)
+	}
+	th, err := s.(segment.ThesaurusSegment).Thesaurus("syn2")
+	fmt.Printf("Thesaurus(syn2) = %v, err=%v\n", th, err)
+	d, err := zh.DumpThesaurus(s.(segment.ThesaurusSegment), "syn2", nil)
+	fmt.Println(d, err)
+	data, _ := os.ReadFile(path)
+	fmt.Printf("%x\n", data)
 }
